@@ -466,7 +466,7 @@ def value_tests(f, start_locals, family=None, enum_success=None, follow_await=Tr
             elif n0.startswith("n0_error::") and family_of_type(f.locals[x]) == "result" and fam in ("result", "option"):
                 # n0_error context adapters: output Ok => input Ok/Some
                 tag(x, "result", neg, level)
-            elif fam == "bool" and n0 in ("core::bool::<impl bool>::then_some", "core::bool::<impl bool>::then"):
+            elif fam == "bool" and n0 in ("core::bool::then_some", "core::bool::then"):
                 tag(x, "option", neg, level)
 
     tests = []
